@@ -6,12 +6,35 @@ package commands
 
 //@ ghost G_lastenc() interface{}
 
+// C13 / C09, bounded: the 1296 session identifiers have 1296 distinct two-character wire forms, and the request
+// header decoder reads each of them back as the identifier it stands for (evaluated on the real code: the encoder
+// goes through strconv.FormatInt, which the verifier does not model)
+//@ go func specUserIdsAreDistinctOnTheWire() bool {
+//@    seen := map[string]int{}
+//@    for id := 0; id < 36*36; id++ {
+//@       w := EncodeUserId(uint16(id))
+//@       if prev, dup := seen[w]; dup || len(w) != 2 {
+//@          specWitness = "identifiers " + strconv.Itoa(prev) + " and " + strconv.Itoa(id) + " share the wire form " + w
+//@          return false
+//@       }
+//@       seen[w] = id
+//@       hdr := append(EncodeRequestHeader(CmdPacket, uint16(id)), 'x')
+//@       _, got, err := DecodeRequestHeader(CmdPacket, hdr)
+//@       if err != nil || int(got) != id {
+//@          specWitness = "identifier " + strconv.Itoa(id) + " is written as " + w + " and read back as " + strconv.Itoa(int(got))
+//@          return false
+//@       }
+//@    }
+//@    return true
+//@ }
 //@ func init
-//@   property C12
+//@   property C12, C13, C09
 //@   safe
 //@ property C12
 //@ pkginv BadVersion != nil && BadLen != nil && BadIp != nil && BadCommand != nil && BadCodec != nil && BadFrag != nil && BadUser != nil && BadConn != nil && BadServerFull != nil   :sentinels_defined
 //@ pkginv forall k :: 0 <= k && k < len(BadErrors) ==> BadErrors[k] != nil   :error_table_filled
+//@ property C13, C09
+//@ fact specUserIdsAreDistinctOnTheWire()                      :bounded_all_1296_session_identifiers_are_distinct_on_the_wire
 //@ property C12, C13
 //@ pkginv BadIp != BadConn && BadIp != BadUser && BadConn != BadUser && BadFrag != BadIp && BadFrag != BadConn && BadFrag != BadUser   :sentinels_distinct
 
